@@ -139,8 +139,11 @@ impl Codec {
 //@+    proof { last_bl = *bytes_left as int; last_il = *items_left as int; }
 //@   before* `return Ok(Message::Headers(HeadersData {`:
 //@+    proof { assert(remaining as int == last_il); assert(remaining == 0 ==> last_bl == 0); assert(1 <= h@.len() <= 32); assert(remaining > 0 ==> h@.len() == 32); }
+//@   before `return Ok(Message::Attachment(update, Some(raw)));`:
+//@+    proof { assert(update.read == next_len); assert((update.left == 0) == (self.state is None)); assert(update.left > 0 ==> (self.state matches Attachment(l, _, _) && l == update.left)); }
 //@   loop 1:
 //@+    invariant
+//@+        self.state is Attachment ==> self.state == old(self).state,
 //@+        self.state matches BlockHeaders { bytes_left, items_left, headers } ==> headers@.len() < 32 && (items_left == 0 ==> headers@.len() == 0),
 //@   loop 2:
 //@+    invariant
@@ -152,6 +155,8 @@ impl Codec {
 //@+    r matches Ok(Message::Headers(hd)) ==> 1 <= hd.headers@.len() <= 32 && (hd.remaining == 0 ==> final(self).state is None)
 //@+        && (hd.remaining > 0 ==> hd.headers@.len() == 32 && (final(self).state matches BlockHeaders { items_left, .. } && items_left == hd.remaining)),
 //@+    r matches Ok(Message::Unknown(_)) ==> final(self).state is None,
+//@+    r matches Ok(Message::Attachment(u, _)) ==> (old(self).state matches Attachment(l0, _, _) && u.read + u.left == l0 && (l0 > 0 ==> u.read >= 1) && u.read <= 48_000)
+//@+        && ((u.left == 0) == (final(self).state is None)) && (u.left > 0 ==> (final(self).state matches Attachment(l, _, _) && l == u.left)),
 //@ end
 }
 //@ canary next_len: r == 0
